@@ -56,7 +56,12 @@ class Parser(Emitter):
             fn = formulas.get_for(name)
         if fn is None:
             raise formulaserror.NAME
-        result['value'] = fn(*args)
+        try:
+            result['value'] = fn(*args)
+        except formulaserror.XLError as e:
+            # an error raised by a function is the value of that call,
+            # so that IFERROR & co. can trap it like a returned one
+            result['value'] = e
 
         def valsetter(new_value):
             if new_value is not None:
